@@ -24,6 +24,8 @@ pub enum R {
 pub struct X {
     strat: Strat,
     timers: bool,
+    /// the case's virtual-time horizon (0: none, no timers)
+    horizon: u64,
 }
 
 fn to_op(r: R, id: u32) -> Op {
@@ -242,6 +244,38 @@ fn oracle(s: &ProgScene<X>, t: &Trace) -> Vec<Violation> {
             }
         }
     }
+    // (g) ... and the timers of the *current* incarnation keep firing: a restart request that is
+    // ignored (non-restartable), still queued, or already processed never silences the timers
+    // registered by the incarnation that is running. Expected firing times of the timers
+    // registered in started(): registration time + k periods (once: + delay), as long as they
+    // lie strictly before the end of that incarnation (its stopped() callback, or the horizon).
+    if !s.roles[0].started_actions.is_empty() && s.extra.horizon > 0 {
+        for st in an.exits.iter().filter(|e| e.a == 0 && e.cb == Cb::Started) {
+            let r = st.inc;
+            let end = an.enters.iter().find(|e| e.a == 0 && e.cb == Cb::Stopped && e.inc == r).map(|e| e.time).unwrap_or(s.extra.horizon).min(term.map(|(i, _)| t.log[i].time).unwrap_or(u64::MAX));
+            for a in &s.roles[0].started_actions {
+                let (timer, times, exec): (u8, Vec<u64>, bool) = match *a {
+                    Action::Interval { timer, period } | Action::IntervalWith { timer, period } => (timer, (1..).map(|k| st.time + k * period as u64).take_while(|x| *x < end).collect(), false),
+                    Action::DelayedSend { timer, delay } => (timer, Some(st.time + delay as u64).into_iter().filter(|x| *x < end).collect(), false),
+                    Action::DelayedExec { timer, delay } => (timer, Some(st.time + delay as u64).into_iter().filter(|x| *x < end).collect(), true),
+                    _ => continue,
+                };
+                for at in times {
+                    crate::check::oblige("current-timers-keep-firing");
+                    let fired = an.enters.iter().any(|e| {
+                        e.a == 0 && e.time == at && if exec { e.cb == Cb::Exec { timer, reg_inc: r } } else { e.cb == Cb::Tick { timer, reg_inc: r } }
+                    });
+                    if !fired {
+                        out.push(Violation {
+                            clause: "current-timers-keep-firing",
+                            key: format!("C07/current-timer-silenced/strategy={sk}"),
+                            detail: format!("timer {timer} registered by incarnation {r} at t={} did not fire at t={at} although that incarnation ran until t={end}", st.time),
+                        });
+                    }
+                }
+            }
+        }
+    }
     out
 }
 
@@ -453,7 +487,7 @@ fn make_case(progs: &[Vec<R>], strat: Strat, mailbox: Mailbox, start_err_at: Opt
             attach: crate::progscene::Attach::None, spawn: SpawnCfg { mailbox, strat, timeout: None },
             roles: vec![role],
             clients,
-            extra: X { strat, timers },
+            extra: X { strat, timers, horizon },
             oracle,
         }),
     }
@@ -508,7 +542,7 @@ fn cases(tier: Tier) -> Vec<Case> {
         vec![Action::DelayedExec { timer: 1, delay: 3 }],
         vec![Action::Interval { timer: 1, period: 2 }, Action::DelayedSend { timer: 2, delay: 5 }],
     ];
-    for &strat in &[Strat::Default, Strat::Recreate] {
+    for &strat in &[Strat::Default, Strat::Recreate, Strat::NonRestartable] {
         for &mb in &[Mailbox::U, Mailbox::B(1)] {
             for ts in &timer_sets {
                 for s1 in [0u32, 1, 2, 3] {
@@ -557,7 +591,7 @@ pub fn property() -> Property {
     Property {
         id: "C07",
         cases,
-        clauses: &["behaves-like-fresh", "incarnation-bounds", "restart-callbacks", "start-failure-on-restart-terminates", "state-carried-or-reset"],
+        clauses: &["behaves-like-fresh", "current-timers-keep-firing", "incarnation-bounds", "restart-callbacks", "start-failure-on-restart-terminates", "state-carried-or-reset"],
         full_rerun_check: true,
         assumptions: &[
             "handlers take no virtual time in the timer scenes, so a tick handled later than the start of the next incarnation must have fired after that start",
